@@ -96,3 +96,85 @@ def run_traces(chk, prop, windows=False, selftest=True):
         chk.notes['trace_selftest'] = {'corruptions': [l for l, _, _, _ in r2], 'rejected': len(r2) - len(bad)}
         if bad:
             chk.machinery(f'trace specification accepted corrupted traces: {bad}')
+
+
+def _record_read(args):
+    kind, a, b, c, init_syms = args
+    runner.import_repo()
+    from bespokeasm.assembler.engine import Assembler
+    d = tempfile.mkdtemp(prefix='vtrd_', dir=runner.SCRATCH_ROOT)
+    try:
+        out = os.path.join(d, 'o.bin')
+        if kind == 'files':
+            open(os.path.join(d, 'isa.yaml'), 'w').write(b)
+            for f, t in a.items():
+                open(os.path.join(d, f), 'w').write(t)
+            fn = lambda: Assembler(os.path.join(d, 'main.asm'), os.path.join(d, 'isa.yaml'), True, out, 0, None, 0, False, 'listing', 'stdout', 0, [], []).assemble_bytecode()
+            label = ('random', a)
+        else:
+            fn = lambda: Assembler(a, b, True, out, 0, None, 0, False, 'listing', 'stdout', 0, [c], []).assemble_bytecode()
+            label = ('corpus', os.path.relpath(a, corpus.REPO))
+        status, msg, ev, img = traces.record(fn, out)
+        fb = [('GLOBAL', 0, 65535), ('zone1', 40000, 40100)] if kind == 'files' else None
+        return label, status, traces.to_read_trace(ev, init_syms, fb)
+    finally:
+        shutil.rmtree(d, ignore_errors=True)
+
+
+def run_read_traces(chk):
+    """Read-phase traces (condition stack, mute counter, zone, label scope identity) of random multi-file programs and the corpus,
+    validated by spec/Trace_Read.tla."""
+    import yaml
+    quick = chk.tier == 'quick'
+    rng = random.Random(chk.seed * 131 + 8)
+    isa = carrier_yaml(zones=[('zone1', 40000, 40100)], symbols=[('SYM5', '1')])
+    jobs = []
+    for n in range(150 if quick else 2500):
+        jobs.append(('files', traces.random_files(rng, rng.randrange(5, 60 if quick else 200)), isa, None, ['SYM5']))
+    for cfg, src, inc in corpus.corpus_programs():
+        if quick and os.path.getsize(src) > 12000:
+            continue
+        try:
+            conf = yaml.safe_load(open(cfg))
+            syms = [s['name'] for s in ((conf.get('predefined') or {}).get('symbols') or [])]
+        except Exception:
+            syms = []
+        jobs.append(('corpus', src, cfg, inc, syms))
+    recs = runner.pmap(_record_read, jobs)
+    items = [(t[0], t[1], label + (status,)) for label, status, t in recs if t is not None]
+    res = traces.validate_read(chk, items)
+    nacc = 0
+    for label, ok, k, tr in res:
+        chk.traces += 1
+        chk.nontriv(('readtrace', str(label[1])[:200], len(tr['events'])))
+        if ok:
+            nacc += 1
+            continue
+        ev = tr['events'][k - 1] if 0 < k <= len(tr['events']) else None
+        case = {'config': isa, 'files': label[1]} if label[0] == 'random' else {'path': label[1]}
+        chk.violation(f'read phase of a {label[0]} program is not a behaviour of the specification: event {k} {ev}', case,
+                      'accepted by Trace_Read.tla', {'event_index': k, 'event': ev}, {'kind': 'read-trace'})
+    chk.notes['read_traces'] = {'recorded': len(recs), 'validated': len(items), 'accepted': nacc,
+                                'events': sum(len(t[1]['events']) for t in items),
+                                'with_conditionals': sum(1 for t in items if any(e['k'] in ('ifdef', 'ifndef', 'ifx') for e in t[1]['events'])),
+                                'with_includes': sum(1 for t in items if any(e['k'] == 'incb' for e in t[1]['events']))}
+    # binding demonstration
+    cand = [it for it in items if len(it[1]['events']) > 12 and any(e['ev'] == 'line' and not e['comp'] for e in it[1]['events'])]
+    if cand:
+        base = cand[0]
+        muts = []
+        idx = next(i for i, e in enumerate(base[1]['events']) if e['ev'] == 'line' and not e['comp'])
+        m = copy.deepcopy(base[1]); m['events'][idx]['comp'] = True; muts.append((base[0], m, 'excluded line reported compiled'))
+        m = copy.deepcopy(base[1]); m['events'][idx]['muted'] = not m['events'][idx]['muted']; muts.append((base[0], m, 'mute flag flipped'))
+        m = copy.deepcopy(base[1]); m['events'][idx]['zone'] = 'z9'; muts.append((base[0], m, 'zone changed'))
+        li = [i for i, e in enumerate(base[1]['events']) if e['ev'] == 'line']
+        m = copy.deepcopy(base[1]); m['events'][li[-1]]['scope'] = 999; muts.append((base[0], m, 'scope identity changed'))
+        r2 = traces.validate_read(chk, muts)
+        bad = [l for l, ok, _, _ in r2 if ok]
+        chk.notes['read_trace_selftest'] = {'corruptions': [l for l, _, _, _ in r2], 'rejected': len(r2) - len(bad)}
+        if bad:
+            chk.machinery(f'Trace_Read accepted corrupted traces: {bad}')
+    ex = max(items, key=lambda it: len(it[1]['events'])) if items else None
+    if ex:
+        chk.sample({'read_trace_of': ex[2][1] if ex[2][0] == 'corpus' else 'random multi-file program', 'events': len(ex[1]['events']),
+                    'first_events': [{k: v for k, v in e.items()} for e in ex[1]['events'][:3]]})
